@@ -104,6 +104,11 @@ func genGroup(r *hk.Rand) *group {
 				p.Script = append(p.Script, outcome{Kind: "status", Status: 410 + (m+1)%nm}) // another member's status
 			}
 		}
+		for i := range p.Script {
+			if r.Chance(20) {
+				p.Script[i].SetCookie = [][2]string{{hk.Pick(r, []string{"srv", "sid", "a"}), hk.Pick(r, tokVals)}}
+			}
+		}
 		p.Script = append(p.Script, outcome{Kind: "status", Status: 200}, outcome{Kind: "ctxcancel"})
 		g.Members = append(g.Members, p)
 		g.Steps = append(g.Steps, groupStep{Kind: "new", Member: m}, groupStep{Kind: "req", Member: m, Ops: p.ReqOps})
@@ -197,8 +202,11 @@ func runGroup(r *hk.Run, g *group) {
 	}
 	// send in the chosen order; every request is judged by the single-request oracle against
 	// its own effective policy
+	var jar [][2]string // the client's cookie jar is shared by the members, in the order they are sent
 	for _, i := range g.Order {
+		states[i].o.Jar0 = append([][2]string{}, jar...)
 		states[i].send()
+		_, jar = g.Members[i].jarsBefore(jar, len(states[i].o.Wires))
 	}
 	for i, p := range g.Members {
 		o := &states[i].o
@@ -213,6 +221,7 @@ func runGroup(r *hk.Run, g *group) {
 		r.Add(hk.Case{Coq: coq, Desc: map[string]interface{}{"kind": "run", "program": p, "attempts": len(o.Wires), "final": []int{o.Status, o.Err}, "group_member": i}},
 			"g|"+string(key), len(o.Wires) >= 2)
 		r.Count(fmt.Sprintf("group.member-attempts=%d", len(o.Wires)))
+		addCookieCase(r, p, o, "g|"+string(key))
 	}
 	r.Count(fmt.Sprintf("group.client-conds(len,cap)=%v", cprobe.CondShape))
 	r.Count("group.programs")
